@@ -110,6 +110,8 @@ type respClient struct {
 	TransientEOF bool
 	// TransientFor > 0: the (0, io.EOF) reads go on for that long before the stream continues
 	TransientFor time.Duration
+	// ZeroNil: stream offsets at which one Read returns (0, nil)
+	ZeroNil []int
 	// Bystander: a second goroutine waits in a blocking receive on another (logical) channel of the connection
 	// while the exchange runs; nothing is ever sent to that channel. What the transport does concerns it too.
 	Bystander bool
@@ -250,6 +252,9 @@ func runResp(cfg simrt.Config, d respDelivery, c respClient) *respResult {
 	}
 	s.Net.Setup = func(cn *simrt.Conn) {
 		cn.ReadSizes = c.ReadSizes
+		if len(c.ZeroNil) > 0 && cn.ID == 0 {
+			cn.ZeroNil = append([]int{}, c.ZeroNil...)
+		}
 		if len(c.Transients) > 0 && cn.ID == 0 {
 			cn.Transients = append([]int{}, c.Transients...)
 			cn.TransientEOF = c.TransientEOF
